@@ -37,6 +37,10 @@ type c01Scenario struct {
 	Chunks2   []int       `json:"chunks2,omitempty"`
 	Chunks3   []int       `json:"chunks3,omitempty"`
 	AltChunks []int       `json:"alt_chunks,omitempty"`
+	// Align: if set, P2 reads the stream in reads that end exactly Align-1
+	// bytes after every record boundary (0 = not aligned; 1 = on the boundary,
+	// 2 = one byte past it, ...): a producer that flushes once per record.
+	Align int `json:"align,omitempty"`
 }
 
 var gbCorpus = []string{"NC_001422.gb", "NC_001422_part.gb", "pBAT5.txt", "NC_000913.3.min.gb"}
@@ -131,6 +135,9 @@ func genC01(r *core.RNG, tier string) *c01Scenario {
 	if r.Chance(1, 8) {
 		b := r.Intn(1500)
 		sc.FailFirst = &b
+	}
+	if r.Chance(1, 6) {
+		sc.Align = r.Range(1, 3)
 	}
 	return sc
 }
@@ -349,8 +356,19 @@ func (x *c01Run) exec() {
 		fmt.Fprintf(os.Stderr, "---- stream written by P1 ----\n%s---- end ----\n", s1)
 	}
 	// P2
+	chunks2 := sc.Chunks2
+	if sc.Align != 0 {
+		var bounds []int
+		off := 0
+		for _, i := range idx {
+			off += len(outs[i])
+			bounds = append(bounds, off)
+		}
+		chunks2 = simpipe.AlignedChunks(bounds, sc.Align-2, 4096)
+		res.Probes["record_aligned_chunk_schedules"]++
+	}
 	processBoundary()
-	r2 := scanAll(s1, simpipe.Spec{Chunks: sc.Chunks2, CutAt: -1}, 0)
+	r2 := scanAll(s1, simpipe.Spec{Chunks: chunks2, CutAt: -1}, 0)
 	res.SimOps += r2.Reads
 	res.Evaluations++
 	x.key(fmt.Sprintf("stream|n=%d|chunks=%s|registry-after=%s", len(idx), chunkClass(sc.Chunks2), registryState()))
@@ -567,6 +585,7 @@ func (C01) Candidates(raw json.RawMessage) []json.RawMessage {
 	}
 	for _, f := range []func(*c01Scenario){
 		func(c *c01Scenario) { c.FailFirst = nil },
+		func(c *c01Scenario) { c.Align = 0 },
 		func(c *c01Scenario) { c.Chunks2 = nil }, func(c *c01Scenario) { c.Chunks3 = nil }, func(c *c01Scenario) { c.AltChunks = nil },
 	} {
 		c := cl()
